@@ -21,6 +21,22 @@ CHECKS = {
               "through it (validated natively on 435 values at every run). Two genuine defects found by this check were repaired in /repo "
               "(fix: commits bc191a3, 7728b54; see known_findings.json)."),
         design="DESIGN.md section 3, C03; Changes after round 0"),
+    "C08": dict(
+        category="proof",
+        text=("(a) Decided on the regular languages themselves: the real matcher registry (AllMatchers after init plus one member of each "
+              "dynamic family, dumped by interpreting the current source) is translated to SMT-LIB regular languages and, for EVERY unordered "
+              "pair of patterns, the solver shows that no ASCII string of length <= 64 is in both (z3; z3 5.1 and cvc5 cross-check in the "
+              "thorough tier); a witness is replayed against the real registry. (b) For types bin, hex and unsigned, per (width, number of "
+              "significant bits) and for ALL bit values: ExportBinaryNBits has exactly the stated width and rejects a too-small width, "
+              "ExportVerilogBinary is <w>'b + w digits, and ImportString(ExportString(n)) has the same type, width and bits - by symbolic "
+              "execution of the real export/import code including its regexp calls. Decimal values above 16 significant bits, float16/32, "
+              "fixed point, FloPoCo and linear quantiser round trips are outside the claim (floating point / shelling out); Signed has no export."),
+        note=("Trusted: z3 (strings + bit-vectors), /verif/rex translation (validated at every run against the real regexp engine on "
+              "solver-generated members and mutated strings), /verif/symgo regexp models (class-uniform representative, greedy scan with "
+              "solver-decided memberships, exact NFA simulation). One genuine defect repaired (fix: f0fe4e6), one recorded as known finding."),
+        design="DESIGN.md section 3, C08; Changes after round 0",
+        engine="rex+symgo",
+        technique="SMT regular-language intersection (z3 str.in_re) for all pattern pairs; symbolic execution of export/import from go/ssa to bit-vector obligations"),
     "C10": dict(
         category="proof",
         text=("Bounded inductive step decided by SMT: for every endpoint shape built by real Add_* calls within the history-length bound "
@@ -86,11 +102,12 @@ def main():
         },
         "engines": [
             {"name": "smt", "path": "smt/", "serves_properties": served, "kind_free_text": "hash-consed Bool/bit-vector term DAG, SMT-LIB2 printer, long-lived z3/cvc5 processes"},
+            {"name": "rex", "path": "rex/", "serves_properties": ["C08"], "kind_free_text": "Go regexp/syntax to SMT-LIB RegLan"},
             {"name": "symgo", "path": "symgo/", "serves_properties": served, "kind_free_text": "own symbolic executor for go/ssa (predicated execution, guarded stores, merge at post-dominators); encoding regenerated from /repo's working tree at every run"},
         ],
         "checks": checks,
         "not_applicable": na,
-        "notes": "fix: commits in /repo: bc191a3, 7728b54 (C03). Known findings and fixed entries: /verif/known_findings.json.",
+        "notes": "fix: commits in /repo: bc191a3, 7728b54 (C03), f0fe4e6 (C08). Known findings and fixed entries: /verif/known_findings.json.",
     }
     with open(os.path.join(ROOT, "MANIFEST.json"), "w") as f:
         json.dump(m, f, indent=1)
